@@ -216,6 +216,14 @@ func (c *c01Engine) reset(g map[string]interface{}) error {
 	c.graph = fmt.Sprintf("g%d", c.n)
 	vs, _ := g["vertices"].([]interface{})
 	es, _ := g["edges"].([]interface{})
+	// "history": earlier versions of some of the graph's vertices (same ids, other labels / data), written
+	// BEFORE the graph itself: the stored graph is the one the model is given, but the store went through a
+	// history that leaves stale label-index entries behind the records (seed C02-l)
+	if hist, ok := g["history"].([]interface{}); ok && len(hist) > 0 {
+		if err := c.eng.LoadGraph(c.graph, hist, nil); err != nil {
+			return err
+		}
+	}
 	if err := c.eng.LoadGraph(c.graph, vs, es); err != nil {
 		return err
 	}
